@@ -46,4 +46,7 @@ def main():
 
 
 if __name__ == "__main__":
-    sys.exit(main())
+    rc = main()
+    sys.stdout.flush()
+    sys.stderr.flush()
+    os._exit(rc)  # do not wait for multiprocessing clean-up (see runner._shutdown)
